@@ -1,7 +1,7 @@
 """C15 - maildir state survives restart and crashes without UID damage.
 
 A generated history of <= 8 commands (APPEND, STORE, COPY, MOVE, EXPUNGE,
-CREATE, RENAME, SUBSCRIBE, CHECK) runs once on a fresh maildir store under
+CREATE, RENAME, DELETE, SUBSCRIBE, UNSUBSCRIBE, CHECK) runs once on a fresh maildir store under
 harness.fsmon; a copy of the store is taken before *every* mutating
 filesystem operation (= the disk image of a kill at that point) and after the
 last command (clean stop). Every image is restarted with a new backend and
@@ -46,7 +46,8 @@ ASSUMPTIONS = ['the image of a crash between operations k-1 and k is the '
 BUDGET = {'quick': (20, 16), 'thorough': (400, 16)}
 
 OPS = ['append', 'append', 'store', 'store', 'copy', 'move', 'expunge',
-       'create', 'rename', 'subscribe', 'check', 'append-other']
+       'create', 'rename', 'subscribe', 'check', 'append-other', 'delete',
+       'unsubscribe']
 SYS = [b'\\Seen', b'\\Flagged', b'\\Deleted', b'\\Answered']
 
 
@@ -227,6 +228,11 @@ def run_case(case: dict[str, Any]) -> CaseOut:
                                           [b'Moved', b'New2', b'Deep/x'][b % 3])
             elif op == 'subscribe':
                 data = b'SUBSCRIBE %s' % [b'Other', b'INBOX', b'New'][a % 3]
+            elif op == 'unsubscribe':
+                data = b'UNSUBSCRIBE %s' % [b'Other', b'INBOX', b'New'][a % 3]
+            elif op == 'delete':
+                data = b'DELETE %s' % [b'Other', b'New', b'New2', b'Deep/er',
+                                       b'Deep'][a % 5]
             else:
                 data = b'CHECK'
             got = h.run(c, idx, tag + b' ' + data + b'\r\n')
